@@ -382,9 +382,22 @@ def build(prop, seed):
                 continue
             if rng.random() < prof['p_disable_in_handshake']:
                 t_up = item['t'] + (item.get('delay', 0.0) if item['kind'] == 'restart' else 0.0)
-                plan.append({'t': round(t_up + rng.uniform(1.0, 14.0), 3), 'kind': 'rpc', 'inst': item['inst'],
-                             'method': 'supvisors.' + gen.pick(rng, ['disable', 'disable', 'enable']),
-                             'args': [gen.pick(rng, progs), False]})
+                t_dis = round(t_up + rng.uniform(1.0, 14.0), 3)
+                meth_d = gen.pick(rng, ['disable', 'disable', 'enable'])
+                prog_d = gen.pick(rng, progs)
+                plan.append({'t': t_dis, 'kind': 'rpc', 'inst': item['inst'], 'method': 'supvisors.' + meth_d,
+                             'args': [prog_d, False]})
+                # ... and, once the publication has had all the time to travel, a start of that very program asked to
+                # somebody else (own random stream: the rest of the plan is unchanged)
+                rng_d = random.Random(kernel.hash64(seed, 'start_after_disable', len(plan)))
+                cands = [ns_ for ns_ in gen.namespecs_of(config)
+                         if ns_.split(':')[1] == prog_d or ns_.split(':')[1].startswith(prog_d + '_')]
+                others = [s_['nick'] for s_ in config['instances'] if s_['nick'] != item['inst']]
+                if cands and others and rng_d.random() < 0.6:
+                    plan.append({'t': round(t_dis + rng_d.uniform(22.0, 70.0), 3), 'kind': 'rpc',
+                                 'inst': gen.pick(rng_d, others + ['$master']), 'method': 'supvisors.start_process',
+                                 'args': [gen.pick(rng_d, ['CONFIG', 'LESS_LOADED', 'MOST_LOADED']), gen.pick(rng_d, cands),
+                                          '', False]})
     if prof.get('p_ending_op_near_loss'):
         # restart / shutdown asked to some instance in the seconds that follow the loss of an instance (possibly the
         # Master: the others have no Master until their next evaluation)
